@@ -44,7 +44,7 @@ func (s *TreeSize) addDescendent(filename string, s2 TreeSize) {
 	s.MaxPathDepth.AdjustMaxIfNecessary(s2.MaxPathDepth.Plus(1))
 	if s2.MaxPathLength > 0 {
 		s.MaxPathLength.AdjustMaxIfNecessary(
-			(counts.NewCount32(uint64(len(filename))) + 1).Plus(s2.MaxPathLength),
+			counts.NewCount32(uint64(len(filename))).Plus(1).Plus(s2.MaxPathLength),
 		)
 	} else {
 		s.MaxPathLength.AdjustMaxIfNecessary(counts.NewCount32(uint64(len(filename))))
